@@ -34,7 +34,7 @@ type c02Plan struct {
 	Tape    []int `json:"tape"`
 	Deviant int   `json:"deviant"`  // -1: honest ceremony; else the participant whose key announcement carries another polynomial
 	DevHold bool  `json:"dev_hold"` // the deviant's operator answers the key step only when nothing else can happen (its announcement comes last)
-	DevMode int   `json:"dev_mode"` // 0: same constant term, other higher coefficient; 1: other constant term too; 2: one coefficient fewer
+	DevMode int   `json:"dev_mode"` // 0: same constant term, other higher coefficient; 1: other constant term too; 2: one coefficient fewer; 3: agreed polynomial, other group key; 4: no polynomial, other group key
 	// Fault: a transient storage fault on one airgapped machine: while it processes its operation of the given step,
 	// one entry of its database (the Key-th in key order) is unreadable; afterwards the entry is back.
 	Fault *c02Fault `json:"fault,omitempty"`
@@ -80,7 +80,7 @@ func c02Gen(rt *rapid.T) c02Plan {
 	p.Tape = rapid.SliceOfN(rapid.IntRange(0, 1000), 0, 120).Draw(rt, "tape")
 	if rapid.IntRange(0, 2).Draw(rt, "deviant") == 0 {
 		p.Deviant = rapid.IntRange(0, p.N-1).Draw(rt, "who")
-		p.DevMode = rapid.IntRange(0, 2).Draw(rt, "mode")
+		p.DevMode = rapid.IntRange(0, 4).Draw(rt, "mode")
 		p.DevHold = rapid.Bool().Draw(rt, "hold")
 	} else if rapid.Bool().Draw(rt, "fault") {
 		p.Fault = &c02Fault{Machine: rapid.IntRange(0, p.N-1).Draw(rt, "faultMachine"), Step: rapid.SampledFrom(c02Steps).Draw(rt, "faultStep"), Key: rapid.IntRange(0, 40).Draw(rt, "faultKey")}
@@ -204,11 +204,20 @@ func c02Execute(p c02Plan, root string) (obs c02Obs) {
 					return err
 				}
 				genuinePoly = req.PubPolyBz
-				dev, err := deviantPoly(req.PubPolyBz, p.DevMode)
-				if err != nil {
-					return err
+				if p.DevMode >= 3 {
+					// another group key announced together with the agreed polynomial (3) or with none (4)
+					req.MasterKey = append([]byte{}, req.MasterKey...)
+					req.MasterKey[len(req.MasterKey)-1] ^= 1
+					if p.DevMode == 4 {
+						req.PubPolyBz = nil
+					}
+				} else {
+					dev, err := deviantPoly(req.PubPolyBz, p.DevMode)
+					if err != nil {
+						return err
+					}
+					req.PubPolyBz = dev
 				}
-				req.PubPolyBz = dev
 				res.ResultMsgs[0].Data, _ = json.Marshal(req)
 				resFile, _ = json.Marshal(res)
 				obs.DevPosted = true
